@@ -121,3 +121,5 @@ Definition time_table_diffs (tt : list (Z * ttab_entry)) (pt : list (string * op
                      String.eqb (fmt_rfc_c (fst tx)) (t_rfc (snd tx)))) tt),
    map (fun so => (fst so, parse_datetime (fst so), snd so))
        (List.filter (fun so => negb (opt_Z_eqb (parse_datetime (fst so)) (snd so))) pt)).
+
+Close Scope Z_scope.
